@@ -244,8 +244,88 @@ func rulePresence(p *Prog, r *Report, scope func(name string) bool, what string)
 			}
 		})
 	}
+	// the same through a helper: a module function that returns the looked-up value, compared with nil by its caller
+	for _, fn := range p.FuncList {
+		name := p.Name(fn)
+		if !scope(name) || len(fn.Blocks) == 0 {
+			continue
+		}
+		ord := newOrdinals()
+		eachInstr(fn, func(b *ssa.BasicBlock, in ssa.Instruction) {
+			bo, ok := in.(*ssa.BinOp)
+			if !ok || (bo.Op != token.EQL && bo.Op != token.NEQ) {
+				return
+			}
+			var side ssa.Value
+			if isNilConst(bo.Y) {
+				side = bo.X
+			} else if isNilConst(bo.X) {
+				side = bo.Y
+			} else {
+				return
+			}
+			c, isCall := side.(*ssa.Call)
+			if !isCall {
+				if ex, isEx := side.(*ssa.Extract); isEx {
+					c, isCall = ex.Tuple.(*ssa.Call)
+				}
+			}
+			if !isCall {
+				return
+			}
+			g := staticCallee(&c.Call)
+			if g == nil || !p.InModule(g) || len(g.Blocks) == 0 || !isEmptyIface(side.Type()) {
+				return
+			}
+			idx := 0
+			if ex, isEx := side.(*ssa.Extract); isEx {
+				idx = ex.Index
+			}
+			if p.returnsLookedUpValue(g, idx, 0) {
+				r.Bad(rule, name, ord.key(name, "nil comparison of a looked-up value returned by "+p.Name(g)), p.Pos(bo.Pos()), "presence of a key is decided by comparing the value a helper looked up with nil: an entry holding null is treated as absent")
+			}
+		})
+	}
 	r.OK(rule, what, "presence tests", "", fmt.Sprintf("%d map lookups in %d functions: none decides presence by comparing the value with nil", nLook, nFn))
 	if nLook < 2 {
 		r.Unknown(rule, what, "lookups in scope", "", fmt.Sprintf("only %d lookups found in scope", nLook))
 	}
+}
+
+// returnsLookedUpValue: some return of g hands back, as result idx, the plain value of a map[string]interface{} lookup (no ok flag).
+func (p *Prog) returnsLookedUpValue(g *ssa.Function, idx int, depth int) bool {
+	if depth > 2 {
+		return false
+	}
+	found := false
+	var isLooked func(v ssa.Value, seen map[ssa.Value]bool) bool
+	isLooked = func(v ssa.Value, seen map[ssa.Value]bool) bool {
+		if seen[v] {
+			return false
+		}
+		seen[v] = true
+		switch x := v.(type) {
+		case *ssa.Lookup:
+			return !x.CommaOk && typeStr(x.X.Type()) == "map[string]interface{}"
+		case *ssa.Phi:
+			for _, e := range x.Edges {
+				if isLooked(e, seen) {
+					return true
+				}
+			}
+		case *ssa.Call:
+			if h := staticCallee(&x.Call); h != nil && p.InModule(h) && len(h.Blocks) > 0 {
+				return p.returnsLookedUpValue(h, 0, depth+1)
+			}
+		}
+		return false
+	}
+	eachInstr(g, func(b *ssa.BasicBlock, in ssa.Instruction) {
+		if ret, ok := in.(*ssa.Return); ok && idx < len(ret.Results) {
+			if isLooked(ret.Results[idx], map[ssa.Value]bool{}) {
+				found = true
+			}
+		}
+	})
+	return found
 }
